@@ -103,9 +103,9 @@ func lastWinsSorted(l []detection.Signature) []detection.Signature {
 }
 
 func suiteMigrate(c *Ctx) error {
-	c.Res.Rule = "signature lists of sizes {0,1,2,5,999,1000,1001,1500 (+2500 thorough)} with unicode, empty optional fields and repeated IDs (within a batch and ACROSS the 1000-record batch boundary): real MigrateFromJSON -> ExportToJSON/GetSignature vs last-wins-sorted-by-ID (oracle, full JSON of every signature) and vs the Lean store model; every byte truncation of small files vs the token-level model and the 'never a short success' oracle; jsondb add/batch-add/get histories; SaveDatabase under strace vs the atomic-replace protocol; non-trivial = list has a repeated ID or crosses a batch boundary, or the cut is strictly inside the file; distinct by content"
+	c.Res.Rule = "signature lists of sizes {0,1,2,5,999,1000,1001,1500,2100 (+2000,2500,3001 thorough)} with unicode, empty optional fields and repeated IDs (within a batch and ACROSS the 1000-record batch boundary): real MigrateFromJSON -> ExportToJSON/GetSignature vs last-wins-sorted-by-ID (oracle, full JSON of every signature) and vs the Lean store model; every byte truncation of small files vs the token-level model and the 'never a short success' oracle; jsondb add/batch-add/get histories; SaveDatabase under strace vs the atomic-replace protocol; non-trivial = list has a repeated ID or crosses a batch boundary, or the cut is strictly inside the file; distinct by content"
 	r := NewRng(c.Seed)
-	sizes := []int{0, 1, 2, 5, 999, 1000, 1001, 1500}
+	sizes := []int{0, 1, 2, 5, 999, 1000, 1001, 1500, 2100}
 	if c.Tier == "thorough" {
 		sizes = append(sizes, 2500, 2000, 3001)
 	}
